@@ -4,6 +4,7 @@
 //! Case grammar (space separated):
 //!   enc <c|s> <none|gzip|deflate|zstd> <i|d> <yieldThr> <bufSize> <max|none> <npolls> Z <k> (<raw> <comp>)*k EV <ev>*
 //!        ev: i<hex> item | e<code> source error | p pending
+//!            f<k>.<hex> item on which `Encoder::encode` fails after writing its first k bytes (raw codec only)
 //!   dec <req|resp<http>|empty> <none|gzip|deflate|zstd> <max|none> <bufSize> <npolls> Z <k> (<raw|F> <comp>)*k EV <ev>*
 //!        ev: d<hex> data chunk | t<code|none> trailers | e<code> body error | p pending
 //!   pdec … Z <k> … P <j> (<payload> <canonical re-encoding|F>)*j EV …   (prost codec: what prost, called
@@ -59,6 +60,30 @@ impl Decoder for RawDec {
             return Err(Status::internal("codec"));
         }
         Ok(Some(b.to_vec()))
+    }
+    fn buffer_settings(&self) -> BufferSettings {
+        self.0
+    }
+}
+
+/// The raw encoder with a failure switch: an item `(bytes, Some(k))` makes `Encoder::encode`
+/// write the first `k` bytes and then return an error (rev1 S2: a failing `Encoder::encode`).
+#[derive(Clone, Copy)]
+pub struct FailEnc(pub BufferSettings);
+impl Encoder for FailEnc {
+    type Item = (Vec<u8>, Option<usize>);
+    type Error = Status;
+    fn encode(&mut self, item: (Vec<u8>, Option<usize>), dst: &mut EncodeBuf<'_>) -> Result<(), Status> {
+        match item.1 {
+            None => {
+                dst.put_slice(&item.0);
+                Ok(())
+            }
+            Some(k) => {
+                dst.put_slice(&item.0[..k.min(item.0.len())]);
+                Err(Status::internal("enc"))
+            }
+        }
     }
     fn buffer_settings(&self) -> BufferSettings {
         self.0
@@ -252,6 +277,8 @@ pub fn st_tok(prefix: &str, st: &Status) -> String {
 
 pub enum SrcEv {
     Item(Vec<u8>),
+    /// an item the encoder double fails on after writing this many bytes
+    FailItem(Vec<u8>, usize),
     Err(i32),
     Pending,
 }
@@ -265,7 +292,7 @@ pub struct ScriptedSource {
 }
 
 impl Stream for ScriptedSource {
-    type Item = Result<Vec<u8>, Status>;
+    type Item = Result<(Vec<u8>, Option<usize>), Status>;
     fn poll_next(mut self: Pin<&mut Self>, _cx: &mut Context<'_>) -> Poll<Option<Self::Item>> {
         match self.evs.pop_front() {
             None => {
@@ -276,7 +303,8 @@ impl Stream for ScriptedSource {
                 Poll::Ready(None)
             }
             Some(SrcEv::Pending) => Poll::Pending,
-            Some(SrcEv::Item(v)) => Poll::Ready(Some(Ok(v))),
+            Some(SrcEv::Item(v)) => Poll::Ready(Some(Ok((v, None)))),
+            Some(SrcEv::FailItem(v, k)) => Poll::Ready(Some(Ok((v, Some(k))))),
             Some(SrcEv::Err(c)) => Poll::Ready(Some(Err(Status::new(tonic::Code::from_i32(c), "user")))),
         }
     }
@@ -365,6 +393,10 @@ fn exec_enc_with(t: &[&str], prost: bool) -> String {
         .iter()
         .map(|e| match e.as_bytes()[0] {
             b'i' => SrcEv::Item(unhex(&format!("x{}", &e[1..])).unwrap()),
+            b'f' => {
+                let (k, h) = e[1..].split_once('.').expect("f<k>.<hex>");
+                SrcEv::FailItem(unhex(&format!("x{}", h)).unwrap(), k.parse().unwrap())
+            }
             b'e' => SrcEv::Err(e[1..].parse().unwrap()),
             _ => SrcEv::Pending,
         })
@@ -375,14 +407,14 @@ fn exec_enc_with(t: &[&str], prost: bool) -> String {
     let body: Pin<Box<dyn Body<Data = Bytes, Error = Status>>> = if prost {
         use tokio_stream::StreamExt;
         let enc = tonic::codec::ProstCodec::<prost_types::Any, prost_types::Any>::raw_encoder(bs);
-        let src = src.map(|r| r.map(|v| <prost_types::Any as prost::Message>::decode(&v[..]).expect("case items are valid Any")));
+        let src = src.map(|r| r.map(|(v, _)| <prost_types::Any as prost::Message>::decode(&v[..]).expect("case items are valid Any")));
         if server {
             Box::pin(EncodeBody::new_server(enc, src, comp, ovr(), max))
         } else {
             Box::pin(EncodeBody::new_client(enc, src, comp, max))
         }
     } else {
-        let enc = RawEnc(bs);
+        let enc = FailEnc(bs);
         if server {
             Box::pin(EncodeBody::new_server(enc, src, comp, ovr(), max))
         } else {
@@ -626,6 +658,12 @@ pub fn gen_enc_case(rng: &mut Rng, errors: bool, limit: bool) -> EncCase {
             evs.push(format!("e{}", rng.range(1, 16)));
         }
         let m = gen_msg(rng, maxlen);
+        if errors && rng.chance(1, 8) {
+            // `Encoder::encode` fails on this item after writing some of it
+            let k = rng.below(m.len() as u64 + 1) as usize;
+            evs.push(format!("f{}.{}", k, &hex(&m)[1..]));
+            continue;
+        }
         evs.push(format!("i{}", &hex(&m)[1..]));
         items.push(m);
     }
